@@ -247,12 +247,28 @@ def damaged_variants(rng: random.Random, f: bytes) -> list[bytes]:
     return out
 
 
+def empty_info_frame(rng: random.Random) -> bytes:
+    """A frame with header check sequence, a ZERO-length information field and a frame check sequence of its own:
+    intact by the statement of C01 (length field = octet count, FCS good); its payload accessor is b"" (not None)."""
+    dst, src = rand_addr(rng, rng.choice([1, 2])), rand_addr(rng, 1)
+    n = 2 + len(dst) + len(src) + 1 + 2 + 2
+    hdr = bytes([0xA0 | (n >> 8), n & 0xFF]) + dst + src + bytes([0x13])
+    c = _fcs(hdr)
+    h2 = hdr + bytes([c & 0xFF, c >> 8])
+    c = _fcs(h2)
+    return h2 + bytes([c & 0xFF, c >> 8])
+
+
 def free_stream(rng: random.Random, cfg, budget: int = 400) -> bytes:
     """Frames, damaged frames, noise and flags in random order (C01/C06/C14)."""
     out = bytearray()
     for _ in range(rng.randint(1, 7)):
         kind = rng.random()
-        if kind < 0.35:
+        if kind < 0.06:
+            f = empty_info_frame(rng)
+            w = stuff(f) if cfg[0] else f
+            out += bytes([FLAG]) + w + bytes([FLAG])
+        elif kind < 0.35:
             f = item_bytes(item_frame(rng, maxinfo=budget))
             w = stuff(f) if cfg[0] and rng.random() < 0.9 else f
             out += bytes([FLAG]) * rng.choice([0, 1, 1, 2]) + w + bytes([FLAG]) * rng.choice([0, 1, 1, 2])
@@ -613,6 +629,7 @@ def run_c01(chk: Check) -> int:
     jobs = [(s + 500 + i, 4 if quick else 40, 2, not quick) for i in range(16)]
     traces += pmap(_mk_clean, jobs)
     judge_and_harvest(chk, traces, ("C01",), "c01-traces")
+    partial_accessors(chk, 200 if quick else 4000)
     smp = next((t for t in traces if nframes(t) > 1), traces[0])
     chk.sample({"cfg": smp["cfg"], "origin": smp["origin"], "calls": [
         {"chunk": bytes(c["chunk"]).hex(), "frames": [{"o": bytes(f["o"]).hex(), "valid": f["valid"], "ws": f["ws"], "we": f["we"]}
@@ -714,10 +731,14 @@ def _mk_c06_random(args):
         else:
             plan = resync_plan(rng, cfg, rng.choice(NOISE_KINDS), rng.randint(2, 4))
             data = plan_wire(cfg, plan)
+        if k % 6 == 5:                      # long stream: one read() of many KiB against the same stream in pieces
+            data = b"".join(free_stream(rng, cfg) for _ in range(rng.randint(12, 40)))
         cuts = chunkings(rng, len(data), 5)
         if len(data) <= 40:
             cuts += [[c, len(data) - c] for c in range(1, len(data))]
-        out.append(make_trace(cfg, data, cuts, mode="free", origin="gen:c06"))
+        if len(data) > 3000:
+            cuts = [c for c in cuts if len(c) <= 2500] + [[len(data) // 2, len(data) - len(data) // 2]]
+        out.append(make_trace(cfg, data, cuts, mode="free", origin="gen:c06" + (":long" if len(data) > 3000 else "")))
     return out
 
 
@@ -770,3 +791,68 @@ def run_c06(chk: Check) -> int:
 
 def replay_c06(chk: Check, rp: dict) -> int:
     return replay_trace(chk, rp, ("C06",))
+
+
+# ----------------------------------------------------------------------------- growth: accessors on partial frames (DRIFT level)
+def partial_record(octets: bytes) -> dict:
+    from han.hdlc import HdlcFrame
+    f = HdlcFrame()
+    obs = []
+
+    def g(fn, default=-1):
+        try:
+            v = fn()
+        except Exception:  # noqa: BLE001
+            return -2
+        return default if v is None else v
+    for b in octets:
+        try:
+            f.append(b)
+        except Exception:  # noqa: BLE001
+            pass
+        h = f.header
+        dst, src, pl = g(lambda: h.destination_address, None), g(lambda: h.source_address, None), g(lambda: f.payload, None)
+        obs.append({"format": g(lambda: h.frame_format), "ftype": g(lambda: h.frame_format_type), "seg": bool(g(lambda: h.segmentation, False)),
+                    "flen": g(lambda: h.frame_length), "hasdst": isinstance(dst, bytes), "dst": list(dst) if isinstance(dst, bytes) else [],
+                    "hassrc": isinstance(src, bytes), "src": list(src) if isinstance(src, bytes) else [], "ctrl": g(lambda: h.control),
+                    "hcs": g(lambda: h.header_check_sequence), "infopos": g(lambda: h.information_position), "good": bool(g(lambda: f.is_good_ffc, False)),
+                    "explen": bool(g(lambda: f.is_expected_length, False)), "fcs": g(lambda: f.frame_check_sequence),
+                    "haspayload": isinstance(pl, bytes), "payload": list(pl) if isinstance(pl, bytes) else []})
+    return {"id": stable_id("partial", octets.hex()), "canary": "", "octets": list(octets), "obs": obs}
+
+
+def partial_accessors(chk: Check, n: int):
+    """HdlcFrame.append octet by octet; every accessor after every octet judged by TLC (spec/hdlc/HdlcPartial.tla)."""
+    rng = chk.rng
+    recs = []
+    for k in range(n):
+        it = item_frame(rng, maxinfo=24, sizes=[0, 1, 3, 8, 24])
+        fr = item_bytes(it)
+        kind = k % 4
+        if kind == 1:
+            fr = rng.choice(damaged_variants(rng, fr))
+        elif kind == 2:
+            fr = bytes(rng.choice([0xA0, 0x07, 0x02, 0x01, 0x03, 0x7E, rng.randrange(256)]) for _ in range(rng.randint(1, 16)))
+        elif kind == 3:
+            fr = bytes([0xA0, len(fr)]) + bytes(rng.randrange(128) * 2 for _ in range(rng.randint(1, 6))) + fr[2:]   # long / unterminated addresses
+        recs.append(partial_record(fr[:48]))
+    import copy
+    c = copy.deepcopy(next(r for r in recs if len(r["obs"]) > 6))
+    c["obs"][5]["good"] = not c["obs"][5]["good"]
+    c["canary"], c["id"] = "good", "canary-partial"
+    recs.append(c)
+    seen, uniq = set(), []
+    for r in recs:
+        if r["id"] not in seen:
+            seen.add(r["id"])
+            uniq.append(r)
+    verdicts = chk.judge("hdlc", "Trace_HdlcPartial", uniq, what="partial-accessors")
+    nb = 0
+    for r, v in zip(uniq, verdicts):
+        if r["canary"]:
+            continue
+        if not v["ok"]:
+            nb += 1
+            chk.drift(f"HdlcFrame accessor '{v['field']}' after {v['at']} octets of {bytes(r['octets']).hex()} differs from spec/hdlc/HdlcPartial.tla")
+    chk.cov["partial_frame_accessor_records"] = len(uniq) - 1
+    chk.cov["partial_frame_accessor_mismatches"] = nb
